@@ -183,7 +183,7 @@ def worker(args, scratch):
                     res["violations"].append(["%s:service-touched-although-nothing-to-do" % cmd[0], wit])
                 # service stopped before any file was replaced, started after
                 changed_sys = [k for k in SYS if got[k] != t[k]]
-                if changed_sys and cmd[0] in ("install", "restore"):
+                if changed_sys and cmd[0] in ("install", "restore") and exp is not None:
                     verbs = [c.split(" ")[0] for c in calls]
                     old_sig = ",".join((t[k] or "-") for k in ("exe", "cfg", "ebpf", "unit")) + ","
                     new_sig = ",".join((got[k] or "-") for k in ("exe", "cfg", "ebpf", "unit")) + ","
